@@ -251,6 +251,7 @@ tot = dict(behaviours=0, steps=0)
 hstats = {}
 allb = []
 samples = []
+unreproduced = []
 for gi, (reps, behs, what) in enumerate(groups):
     t0 = time.time()
     res = run_replay('g%d' % gi, behs, reps)
@@ -263,18 +264,25 @@ for gi, (reps, behs, what) in enumerate(groups):
     for k2, v2 in res['stats'].items():
         hstats[k2] = hstats.get(k2, 0) + v2
     allb += behs
-    # reproduce each violation (one per signature) once more from scratch before reporting
-    seen = set()
+    # Per signature: re-execute an instance once more from scratch and report it if it shows again.  An instance
+    # that does not show again is not reported (on a tree with order-dependent dedup a few instances only
+    # appear with a small probability); if NO instance of a signature reproduces the run is inconclusive.
+    by_sig = {}
     for v in res['violations']:
-        if v['signature'] in seen:
-            continue
-        seen.add(v['signature'])
-        b = behs[v['behaviour']]
-        again = run_replay('repro', [b[: v['step'] + 1]], reps)
-        if v['signature'] not in [x['signature'] for x in again['violations']]:
+        by_sig.setdefault(v['signature'], []).append(v)
+    for sig, vs in by_sig.items():
+        reported = False
+        for v in vs:
+            b = behs[v['behaviour']]
+            again = run_replay('repro', [b[: v['step'] + 1]], reps)
+            if sig in [x['signature'] for x in again['violations']]:
+                c.report(sig, v['detail'], {'behaviour': b[: v['step'] + 1], 'replicas': reps, 'harness': 'c18'})
+                reported = True
+                break
+            unreproduced.append('%s (%s, behaviour %d step %d)' % (sig, what, v['behaviour'], v['step']))
+        if not reported:
             done()
-            c.inconclusive('violation %s (%s, behaviour %d step %d) not reproduced' % (v['signature'], what, v['behaviour'], v['step']))
-        c.report(v['signature'], v['detail'], {'behaviour': b[: v['step'] + 1], 'replicas': reps, 'harness': 'c18'})
+            c.inconclusive('violation %s (%s) not reproduced in %d attempts on different instances' % (sig, what, len(vs)))
     samples += res.get('samples', [])[:1]
 
 # ---- 4. binding self-test: corrupt one replay expectation, the harness must reject it ----
@@ -319,7 +327,7 @@ c.cov.update(
     exhaustive=all(g['uncovered'] == 0 for g in gstats), evaluations=tot['behaviours'], distinct_nontrivial=nontriv,
     rule='behaviours = for each graph config an edge cover of the TLC state graph modulo the history variable (every (state, action) pair, refused repairs included) plus %d -simulate behaviours of depth <= %d; non-trivial = some write missed a replica AND a repair/read-repair step follows; distinct by full state sequence' % (len(sb), simd),
     harness_stats=hstats, liveness=dict(config=name(live), distinct=lr.distinct, holds=True), spec_rejects_coded_tie_rule=spec_rejects_coded,
-    binding_selftest_rejected=selftest, action_coverage=cover,
+    binding_selftest_rejected=selftest, action_coverage=cover, unreproduced_instances=unreproduced,
     samples=[[s['last'] for s in allb[len(allb) // 3][1:]], [s['last'] for s in allb[-1][1:]]] + samples[:2],
 )
 c.assumptions += [
